@@ -41,6 +41,7 @@ type config struct {
 	noMin    bool
 	replays  string
 	evidence string
+	goCmd2   string
 }
 
 var scratchDirs []string
@@ -83,6 +84,8 @@ func goEnv() []string {
 type built struct {
 	scratch string
 	worker  string
+	worker2 string // same sources built by a second toolchain (thorough tier), "" if none
+	goVer2  string
 	rep     *InstrumentReport
 	nsites  int
 	goVer   string
@@ -137,6 +140,22 @@ func prepare(cfg *config) *built {
 	if err != nil {
 		die2("building the instrumented tree failed (not a verdict):\n%s", out)
 	}
+	bin2, ver2 := "", ""
+	if cfg.tier == "thorough" && cfg.goCmd2 != "" {
+		if p, err := exec.LookPath(cfg.goCmd2); err == nil {
+			b2 := filepath.Join(scratch, "simworker-alt")
+			c2 := exec.Command(p, "build", "-race", "-trimpath", "-o", b2, ".")
+			c2.Dir = wdir
+			c2.Env = goEnv()
+			if out, err := c2.CombinedOutput(); err == nil {
+				bin2 = b2
+				v2, _ := exec.Command(p, "version").Output()
+				ver2 = strings.TrimSpace(string(v2))
+			} else {
+				fmt.Fprintf(os.Stderr, "simctl: second toolchain %s could not build the worker (continuing with one):\n%s\n", cfg.goCmd2, out)
+			}
+		}
+	}
 	vout, _ := exec.Command(cfg.goCmd, "version").Output()
 	nsites := firstLibSite
 	for _, s := range rep.Sites {
@@ -144,7 +163,7 @@ func prepare(cfg *config) *built {
 			nsites = s.ID + 1
 		}
 	}
-	return &built{scratch: scratch, worker: bin, rep: rep, nsites: nsites, goVer: strings.TrimSpace(string(vout))}
+	return &built{scratch: scratch, worker: bin, worker2: bin2, goVer2: ver2, rep: rep, nsites: nsites, goVer: strings.TrimSpace(string(vout))}
 }
 
 // WorkerReport mirrors the worker's aggregate (only what simctl needs).
@@ -191,8 +210,24 @@ func addMap(dst, src map[string]int) {
 
 const raceOpts = "halt_on_error=0 exitcode=0 history_size=2"
 
+// altWorker: in the thorough tier every fourth batch worker (and the matching
+// determinism traces, w >= 5000) runs the binary built by the second toolchain.
+func useAlt(b *built, w int) bool {
+	if b.worker2 == "" {
+		return false
+	}
+	if w >= 5000 {
+		return true
+	}
+	return w < 1000 && w%4 == 3
+}
+
 func workerCmd(b *built, outDir string, w int, args ...string) *exec.Cmd {
-	cmd := exec.Command(b.worker, args...)
+	bin := b.worker
+	if useAlt(b, w) {
+		bin = b.worker2
+	}
+	cmd := exec.Command(bin, args...)
 	env := os.Environ()
 	var e2 []string
 	for _, e := range env {
@@ -333,6 +368,9 @@ func determinismTest(cfg *config, b *built, outDir string) (runs int, procs int,
 	gmp := []string{"1", "4"}
 	if cfg.tier == "thorough" {
 		gmp = []string{"1", "2", "4", "16"}
+		if b.worker2 != "" {
+			gmp = append(gmp, "alt") // same runs, binary of the second toolchain
+		}
 	}
 	nw := 4
 	if cfg.tier == "thorough" {
@@ -352,10 +390,14 @@ func determinismTest(cfg *config, b *built, outDir string) (runs int, procs int,
 				defer wg.Done()
 				sem <- struct{}{}
 				defer func() { <-sem }()
-				cmd := workerCmd(b, outDir, 1000+j.w, "trace", "-seed", fmt.Sprint(cfg.seed), "-worker", fmt.Sprint(j.w),
+				wid := 1000 + j.w
+				if j.procs == "alt" {
+					wid = 5000 + j.w
+				}
+				cmd := workerCmd(b, outDir, wid, "trace", "-seed", fmt.Sprint(cfg.seed), "-worker", fmt.Sprint(j.w),
 					"-tier", cfg.tier, "-from", "0", "-n", fmt.Sprint(cfg.detRuns), "-sites", fmt.Sprint(b.nsites))
 				for i, e := range cmd.Env {
-					if strings.HasPrefix(e, "GOMAXPROCS=") {
+					if strings.HasPrefix(e, "GOMAXPROCS=") && j.procs != "alt" {
 						cmd.Env[i] = "GOMAXPROCS=" + j.procs
 					}
 				}
@@ -514,6 +556,13 @@ func main() {
 	if cfg.goCmd == "" {
 		cfg.goCmd = "go"
 	}
+	cfg.goCmd2 = os.Getenv("GEOSIM_GO2")
+	if cfg.goCmd2 == "" {
+		cfg.goCmd2 = "go1.26.8"
+	}
+	if cfg.goCmd2 == "none" {
+		cfg.goCmd2 = ""
+	}
 	cfg.seed = 20260927
 	if s := os.Getenv("VERIF_SEED"); s != "" {
 		if v, err := strconv.ParseUint(s, 10, 64); err == nil {
@@ -661,28 +710,33 @@ func runCheck(cfg *config) int {
 		replayDir = filepath.Join(cfg.verifDir, "replays")
 	}
 	_ = os.MkdirAll(replayDir, 0o755)
+	// order the recorded violating runs: smallest first, so that each distinct
+	// key is minimised starting from the smallest run that showed it
+	type vfile struct {
+		path string
+		size int64
+	}
+	var vfs []vfile
 	for _, vf := range violFiles {
+		if fi, err := os.Stat(vf); err == nil {
+			vfs = append(vfs, vfile{vf, fi.Size()})
+		}
+	}
+	sort.SliceStable(vfs, func(i, j int) bool { return vfs[i].size < vfs[j].size })
+	for _, vfe := range vfs {
+		vf := vfe.path
 		var head replayHead
 		if err := readJSON(vf, &head); err != nil || len(head.Violations) == 0 {
 			continue
 		}
 		key := head.Violations[0].Key
 		for _, v := range head.Violations {
-			if v.Class == "race" {
+			if v.Class == "race" && !seenKey[v.Key] {
 				key = v.Key
 				break
 			}
 		}
 		if seenKey[key] {
-			continue
-		}
-		allSeen := true
-		for _, v := range head.Violations {
-			if !seenKey[v.Key] {
-				allSeen = false
-			}
-		}
-		if allSeen {
 			continue
 		}
 		if len(filedV) >= 4 {
@@ -703,7 +757,7 @@ func runCheck(cfg *config) int {
 			if cfg.tier == "thorough" {
 				secs = "240"
 			}
-			cmd := workerCmd(b, outDir, 2000+len(filedV), "minimise", "-in", vf, "-out", dst, "-sites", fmt.Sprint(b.nsites), "-seconds", secs)
+			cmd := workerCmd(b, outDir, 2000+len(filedV), "minimise", "-in", vf, "-out", dst, "-sites", fmt.Sprint(b.nsites), "-seconds", secs, "-key", key)
 			cmd.Stdout = os.Stdout
 			if err := cmd.Run(); err != nil {
 				bts, _ := os.ReadFile(vf)
@@ -804,6 +858,7 @@ func runCheck(cfg *config) int {
 			"race_detector":                    agg.Race,
 			"race_detector_settings":           "GORACE=" + raceOpts,
 			"toolchain":                        b.goVer,
+			"second_toolchain":                 b.goVer2,
 			"components_real":                  []string{"github.com/tidwall/geojson (working tree, + generated yield points)", "geojson/geometry", "geojson/geo", "tidwall/gjson", "tidwall/pretty", "tidwall/sjson", "tidwall/rtree", "Go runtime, GC, race runtime"},
 			"components_simulated_or_stubbed":  []string{"choice of which caller goroutine runs (seeded decision list instead of the Go/OS scheduler)"},
 			"components_absent_in_this_system": []string{"network", "disk", "clock/timers"},
